@@ -6,6 +6,8 @@ import sys, os, ast, json, subprocess
 sys.path.insert(0, os.path.dirname(os.path.abspath(__file__)))
 from common import *
 
+OUTPUTS = ['RenderFacts.v']
+
 NBF_CODE = r'''
 import json, nbformat
 from nbformat.v4 import new_markdown_cell, new_output
